@@ -17,19 +17,14 @@ const T_OPEN: u64 = 10;
 const T_TXN: u64 = 20;
 const T_REOPEN: u64 = 30;
 
-/// summary of the storage points a transaction passes, in order of first occurrence:
-/// "set_db_ts_max*1 write_db_ruv*1 write_idl*27 ..." (the flush order inside the name tables
-/// follows hash-map iteration and is not stable, the counts are)
+/// summary of the storage points a transaction passes: "name*count" sorted by name (the flush
+/// order inside the name tables follows hash-map iteration and is not stable, the counts are)
 pub fn rle(names: &[&'static str]) -> String {
-    let mut order: Vec<&'static str> = Vec::new();
     let mut cnt: std::collections::BTreeMap<&'static str, usize> = Default::default();
     for n in names {
-        if !cnt.contains_key(n) {
-            order.push(n);
-        }
         *cnt.entry(n).or_insert(0) += 1;
     }
-    order.iter().map(|n| format!("{}*{}", n, cnt[n])).collect::<Vec<_>>().join(" ")
+    cnt.iter().map(|(n, c)| format!("{n}*{c}")).collect::<Vec<_>>().join(" ")
 }
 
 fn disk_part(v: &J) -> J {
